@@ -152,6 +152,28 @@ def main():
             f.write(json.dumps({'id': shard + n * nshards, 'cls': 'relaystall-http', 'cfg': {'lmtp': False, 'pipelining': False, 'kind': 'http',
                                 'deadline': 1000 + hdrv.HTTP_T, 'stage': 'http'}, 'ev': ev}, separators=(',', ':')) + '\n')
             n += 1
+    # HTTP relay, kept-alive connection: the first response stops in the middle of its body; the next request must not wait
+    # for the rest of it longer than the relay's timeout
+    if shard == 2:
+        from harness import hdrv
+        r = hdrv.HttpRun(['okstallbody', 'ok200'], idle_timeout=5)
+        r.attempt(1, 1)
+        for _ in range(100):
+            if all(g.ready() for g in r.greenlets):
+                break
+            r.pump(0.1)
+        t0 = int(vt.CLOCK.now)
+        first_ok = any(e['t'] == 'ret' and e['kind'] == 'whole' for e in r.ev)
+        r.ev = [{'t': 'peer', 'stage': 'http', 'i': 0, 'act': 'stall', 'code': 0, 'conn': 1, 'trans': 0, 'marker': 0, 'm': 0, 'now': t0}]
+        r.greenlets = []
+        r.attempt(2, 1)
+        r.pump(0.3)               # let the idle client take the request before any (virtual) time passes
+        ev = r.run_to_end()
+        stats['executions'] += 1
+        if first_ok:
+            f.write(json.dumps({'id': shard + n * nshards, 'cls': 'relaystall-httpbody', 'cfg': {'lmtp': False, 'pipelining': False, 'kind': 'http',
+                                'deadline': t0 + hdrv.HTTP_T, 'stage': 'http'}, 'ev': ev}, separators=(',', ':')) + '\n')
+            n += 1
     f.write(json.dumps({'summary': stats}) + '\n')
     f.close()
 
